@@ -46,6 +46,14 @@ CLAIMS["C14"] = {
     "technique": "TLA+ window-rule spec + TLC; exhaustive function conformance + trace validation of switched detector/source runs",
     "design_ref": "§5 C14",
 }
+CLAIMS["C07"] = {
+    "engine": "sched",
+    "level": "model_checking",
+    "text": "StopCondDefs.tla states the documented continue-predicates of TimeStepCondition, EnergyThresholdCondition and DetectorConvergenceCondition and the halting step of the bounded run loop; StopCond.tla is the Check/Step loop. TLC checks HaltsAtFirstStop, NeverLate (<= min(max_steps, T)), NeverEarly (>= min(min_steps, T)), NoStepAfterStop for every kind, T<=4/6, min<=max and every boolean convergence trace, and rejects the pre-fix rule that ignores max_steps. The real condition objects are called on hand-built states for every (t, min, max, converged) in a bound (zero/large fields, constant/random detector readings) and real run_fdtd(stopping_condition=...) runs (pulsed lossy scene, no-source and CW scenes) are checked by TLC in Trace_StopCond: halt step = first stop given the per-step convergence flags measured on a plain run, executed forward steps = returned step count, state equals the plain run of the same number of steps.",
+    "note": "Run in float32 (the detector condition cannot be traced under x64). Convergence flags of the run cases come from the library's compute_energy and a numpy re-implementation of the documented spectral criterion (trusted). min_steps <= max_steps throughout.",
+    "technique": "TLA+ stop-condition spec + TLC over all convergence traces; conformance of real condition calls and real stopped runs",
+    "design_ref": "§5 C07",
+}
 NOT_APPLICABLE = {}
 
 # claim files (checks/Cxx.claim.json) written by builders are merged only after review by the coordinator
